@@ -6,7 +6,7 @@ PROP = "C12"
 PAR_OK = True
 LEVEL = "proof"
 RULE = ("random multifurcating trees (3..12 tips, rooted/unrooted, parent slot at random positions, inner names/comments "
-        "sometimes), inner nodes / the root named like a tip, like an absent table entry or freshly, with extra table entries (or sequences) for non-tip names; wide polytomies with 255..1000 tip children and skewed states; tip states over 1..4 states (plain and exotic state names to exercise sort.Strings, extra map entries "
+        "sometimes), inner nodes / the root named like a tip, like an absent table entry or freshly, with extra table entries (or sequences) for non-tip names; wide polytomies with 255..1000 tip children and skewed states (model + oracle) and star trees with up to 2^16+1 (thorough: 2^17+1) tips per state (oracle only, evaluated in binary numbers); tip states over 1..4 states (plain and exotic state names to exercise sort.Strings, extra map entries "
         "for absent tips, rarely a missing tip; 15%: duplicate inner names and inner names that look like node ids), 30% of the cases with --random-resolve and a recorded rand stream, algorithms downpass/deltran/acctran (+none for the correspondence), every "
         "case also run on the same tree re-rooted at a random inner node (the judge checks the second tree with "
         "Model.Reroot.reroot); sequence variant: alignments of 1..6 sites, unambiguous ACGT(-) in upper, lower or mixed case with the character variant "
@@ -133,6 +133,24 @@ def gen_wide(rng, tier):
                                                   "rr": False, "dupnames": False, "rooted": False, "rerooted": False}})
     return out
 
+def gen_star(rng, tier):
+    """very wide star trees, described by the number of tips per state (the worker builds them; the judge
+    evaluates the specification in binary numbers): per-state counts around 2^8 and 2^16"""
+    sizes = {"quick": [255, 256, 257, 65535, 65536, 65537], "thorough": [255, 256, 257, 1000, 65535, 65536, 65537, 70000, 131073],
+             "search": [256, 257, 65536, 65537]}[tier]
+    out = []
+    for big in sizes:
+        for rep in range(2):
+            names = rng.choice([["A", "B"], ["A", "B", "C"], ["x", "y", "z", "w"]])
+            counts = [rng.choice([0, 1, 2, 3, 40, 255, 256, 257]) for _ in names]
+            counts[rng.randrange(len(names))] = big
+            if rep == 1:
+                counts[rng.randrange(len(names))] = big      # possibly a tie between two states
+            algo = rng.choice(["acctran", "none"]) if big > 3000 else rng.choice(["downpass", "deltran", "acctran", "none"])
+            case = {"kind": Sym("star"), "counts": counts, "names": names, "algo": Sym(algo)}
+            out.append({"sx": sx(case), "meta": {"kind": "star", "algo": algo, "ntips": sum(counts), "wide": big}})
+    return out
+
 def inner_indexes(t):
     return [i for i, n in enumerate(preorder(t)) if len(n["slots"]) >= 2]
 
@@ -191,6 +209,7 @@ def gen(rng, tier):
         out.append({"sx": sx(case), "meta": {"kind": "acr", "algo": algo, "ntips": len(tips), "k": k, "rr": rr, "dupnames": dup, "innerkeys": extra_keys is not None,
                                               "rooted": len(t["slots"]) == 2, "rerooted": "tree2" in case}})
     out += gen_wide(rng, tier)
+    out += gen_star(rng, tier)
     for _ in range(n_asr):
         t = g.tree(lo=3, hi=10, maxdeg=rng.choice([2, 3, 4, 5]), lenmode="mixed", supmode="mixed",
                    inner_names=rng.random() < 0.3, comments=rng.random() < 0.2, up_random=rng.random() < 0.5)
